@@ -822,6 +822,15 @@ def run(ctx):
         ctx.case(json.dumps(case, sort_keys=True), True, None)
         ctx.count('tasks=%d' % len(case['tasks']))
         if obs['raised']:
+            twice = case['backend'] in ('sqlite', 'gpkglevel') and any(
+                a['all'] and b['all'] and a['complete'] and b['complete'] and set(a['levels']) & set(b['levels'])
+                for i, a in enumerate(case['tasks']) for b in case['tasks'][i + 1:])
+            if twice and obs['raised'].startswith('FileNotFoundError'):
+                # known finding; an aborted run is outside the model (cleanup_tasks models runs that do not raise)
+                ctx.fail('level-db-unlinked-twice', 'cleanup() of two remove_all tasks that share a level of a per-level '
+                         'sqlite/geopackage cache raised %s; the remaining tasks were not run' % obs['raised'].split(':')[0],
+                         {'case': case, 'observed': obs})
+                continue
             ctx.fail('cleanup-raised,backend=%s' % case['backend'].split(':')[0], 'cleanup() raised %s' % obs['raised'],
                      {'case': case, 'observed': obs})
         levels = set(l for t in case['tasks'] for l in t['levels'])
